@@ -20,7 +20,7 @@ type evalCtx struct {
 	bound  []string
 	region *State // state at the last lock acquisition (for old@region)
 	head   *State // state at the head of the enclosing loop (for atHead)
-	assuming bool // the clause is being assumed (not proved): reference quantifiers are not restricted
+	assuming bool // the clause is being assumed (not proved)
 }
 
 func (c *evalCtx) child() *evalCtx {
@@ -470,9 +470,11 @@ func (fr *Frame) evalQuant(e *CExpr, ctx *evalCtx) *Val {
 			if ctx.old != nil {
 				bound = ctx.old.alloc
 			}
-			if !ctx.assuming {
-				wf = append(wf, and(app("<=", "0", bn), app("<=", bn, bound)))
-			}
+			// (the same range when the clause is assumed: a clause proved for
+			// the pre-existing objects says nothing about objects allocated
+			// since - assuming it for those made a loop that re-creates a map
+			// in every iteration look unchanged)
+			wf = append(wf, and(app("<=", "0", bn), app("<=", bn, bound)))
 		}
 	}
 	body := fr.eval1(e.Args[0], c)
@@ -571,6 +573,20 @@ func (fr *Frame) evalCall(e *CExpr, ctx *evalCtx) *Val {
 			fr.vc.heapSort["CV$signalled"] = arrSort(sBool)
 		}
 		return boolVal(sel(fr.vc.heapGet(fr.st, "CV$signalled"), fr.scalar(x)))
+	case "local": // current value of a (reassigned) parameter or local variable at this program point
+		if len(args) != 1 || args[0].Kind != "ident" {
+			efail("local(name) expects a variable name")
+		}
+		if ctx.callee != "" {
+			efail("local() is only available in the contract of the function being verified")
+		}
+		// the resolver skips parameters that are never reassigned; for a
+		// reassigned one the dominating phi is the current value
+		if v, ok := fr.resolveLocalCurrent(args[0].Name, ctx.loop); ok {
+			return v
+		}
+		efail("local(%s): no such variable at this point", args[0].Name)
+		return nil
 	case "atHead":
 		if ctx.head == nil {
 			efail("atHead() is only available in latch clauses")
